@@ -5,6 +5,6 @@ JOBS = [
     {"name": "config_matrix", "props": ["C19"], "kind": "py", "fn": configs.job, "min_canaries": 0,
      "functions": ["get_hashfn", "hash_algorithms", "crypt_checksalt", "crypt_preferred_method", "crypt_gensalt_rn (per configuration)"],
      "back_end": "cbmc 6.11.0 / MiniSat 2 per configuration; goto-cc for the build obligation",
-     "assumptions": ["enumeration of configurations (8 quick, about 70 thorough), not a proof over all 2^16 selections",
+     "assumptions": ["enumeration of configurations (9 quick, about 70 thorough), not a proof over all 2^16 selections",
                      "each enabled method's hashing code is the same text in every configuration (the method files do not test other methods' INCLUDE_ macros, except bigcrypt/descrypt and yescrypt/scrypt whose sibling guards are covered by the method jobs in the full configuration only)"]},
 ]
